@@ -687,8 +687,73 @@ def run_config(sc, cfg, quick):
         sp.kill()
 
 
+def classic_namespace_isolation(ctx):
+    """the stock classic service through the stock servers: every client gets its own service instance, hence its own
+    execute()/eval() namespace; what one client defines is invisible to the others and to later clients, whatever a bad
+    client does in between"""
+    import socket
+    import struct
+    import threading
+    import rpyc
+    from rpyc.utils.server import ThreadedServer, ThreadPoolServer
+    listing = "sorted(k for k in list(globals()) if k.startswith('rv_'))"
+    for kind, cls, extra in (("threaded", ThreadedServer, {}), ("threadpool", ThreadPoolServer, {"nbThreads": 3, "requestBatchSize": 2})):
+        import logging
+        quiet = logging.getLogger("rv-c16-classic")
+        quiet.propagate = False
+        quiet.setLevel(logging.CRITICAL + 1)
+        srv = cls(rpyc.SlaveService, hostname="127.0.0.1", port=0, auto_register=False, logger=quiet, **extra)
+        srv._listen()
+        saved_hook = threading.excepthook
+        threading.excepthook = lambda args: ctx.count("classic_server_thread_exceptions_%s" % getattr(args.exc_type, "__name__", "?"))
+        t = threading.Thread(target=srv.start, daemon=True, name="rv-classic-" + kind)
+        t.start()
+        wit = dict(family="classic-namespace", kind=kind)
+        conns = []
+        try:
+            c1 = rpyc.classic.connect("127.0.0.1", srv.port)
+            conns.append(c1)
+            c1.execute("rv_secret = 'of-client-1'")
+            c1.namespace["rv_item"] = [1]
+            # a bad client in between: a frame that claims to be compressed and is not, then a reset
+            bad = socket.create_connection(("127.0.0.1", srv.port))
+            bad.sendall(struct.pack(">IB", 5, 1) + b"nozip" + b"\n")
+            bad.setsockopt(socket.SOL_SOCKET, socket.SO_LINGER, struct.pack("ii", 1, 0))
+            bad.close()
+            c2 = rpyc.classic.connect("127.0.0.1", srv.port)
+            conns.append(c2)
+            seen = list(c2.eval(listing))
+            if seen:
+                ctx.violation("C16/classic/%s/namespace-shared" % kind, "a second client of a classic server sees the names the first client defined: %r" % (seen,), wit)
+            c2.execute("rv_secret = 'of-client-2'")
+            mine = c1.eval("rv_secret")
+            if mine != "of-client-1":
+                ctx.violation("C16/classic/%s/namespace-overwritten" % kind, "client 1's variable now reads %r after client 2 assigned its own" % (mine,), wit)
+            c1.close()
+            c3 = rpyc.classic.connect("127.0.0.1", srv.port)
+            conns.append(c3)
+            seen = [k for k in c3.eval(listing)]
+            if seen:
+                ctx.violation("C16/classic/%s/namespace-outlives-client" % kind, "a later client sees names of clients before it: %r" % (seen,), wit)
+            ctx.case(("classic-namespace", kind), nontrivial=True)
+            ctx.count("classic_namespace_probes", 3)
+        except Exception as e:
+            ctx.violation("C16/classic/%s/good-client-failed/%s" % (kind, type(e).__name__), "a well-behaved classic client failed: %r" % (e,), wit)
+        finally:
+            for c in conns:
+                try:
+                    c.close()
+                except Exception:
+                    pass
+            srv.close()
+            t.join(10)
+            threading.excepthook = saved_hook
+
+
 def run(ctx):
     sc = rn.SharedCtx(ctx)
+    if ctx.shard[0] == 0:
+        classic_namespace_isolation(ctx)
     configs = [(k, a) for k in SERVER_KINDS for a in (False, True)]
     if ctx.quick:
         mine, width = configs, 8        # the waits are poll intervals and back-offs of the servers, not CPU
